@@ -77,6 +77,12 @@ def tasks(ctx, quick):
         if shape == 0 and i % 8 == 0:
             t.update(alpha=rng.choice([60.0, 90.0, 75.5]))
         add(t)
+        # any subset of the angles may be given: beta and gamma default to alpha, alpha to 90 degrees
+        t2 = {"kind": "vol", "kind2": "lattice", "compound": ["dict", comp], "a": a, "b": rng.uniform(1, 20)}
+        for nm in ("alpha", "beta", "gamma"):
+            if rng.random() < 0.5:
+                t2[nm] = rng.choice([60.0, 75.0, 80.5, 95.0, 100.0, 110.0, 90.0])
+        add(t2)
     return items
 
 
